@@ -129,8 +129,12 @@ func genConnect(t *rapid.T) OpB {
 	case 4:
 		op.Addr = rapid.SliceOfN(rapid.Byte(), 16, 16).Draw(t, "ipv6")
 	case 3:
-		n := rapid.OneOf(rapid.SampledFrom([]int{0, 1, 9, 255}), rapid.IntRange(0, 255)).Draw(t, "dlen")
-		op.Addr = rapid.SliceOfN(rapid.ByteRange('a', 'z'), n, n).Draw(t, "domain")
+		if rapid.SampledFrom([]bool{true, true, false}).Draw(t, "domain_text") {
+			op.Addr = genDomain(t)
+		} else {
+			n := rapid.OneOf(rapid.SampledFrom([]int{0, 1, 9, 255}), rapid.IntRange(0, 255)).Draw(t, "dlen")
+			op.Addr = rapid.SliceOfN(rapid.ByteRange('a', 'z'), n, n).Draw(t, "domain")
+		}
 	}
 	op.Port = rapid.Uint16().Draw(t, "port")
 	r := request(5, 1, 0, op.Atyp, op.Addr, op.Port)
@@ -1293,6 +1297,9 @@ func classifyB(c CaseB) core.Class {
 			if op.Atyp == 3 && (len(op.Addr) == 0 || len(op.Addr) == 255) {
 				dl = true
 			}
+			if op.Atyp == 3 {
+				cl.Labels = append(cl.Labels, "domain:"+domainClass(op.Addr))
+			}
 			l += ":" + op.Answer
 		case "close":
 			l += ":" + op.By
@@ -1304,6 +1311,9 @@ func classifyB(c CaseB) core.Class {
 			}
 			l = fmt.Sprintf("op:staged:stage=%d:%s:%s", op.Stage, op.Cmd, goOn)
 			cl.Labels = append(cl.Labels, fmt.Sprintf("staged:stage=%d", op.Stage), "staged:cmd="+op.Cmd)
+			if op.Atyp == 3 {
+				cl.Labels = append(cl.Labels, "domain:"+domainClass(op.Addr))
+			}
 		case "c2a", "a2c":
 			if op.Sleep {
 				l = fmt.Sprintf("op:c2a:deferred-fetch:tasks-per-fetch=%d", len(op.Chunks))
